@@ -589,10 +589,33 @@ func genC13(o *Out, r *rand.Rand, thorough bool) {
 				o.Count("window:unset-" + bd[:1])
 			}
 		}
-		line := fmt.Sprintf("search 0 %s 0 0 %s ; %s", cfg, start, strings.Join(append(moves, items...), " "))
+		tts := 0
+		if r.Intn(3) == 0 {
+			// with a table shared by the searches of the line: what a narrowed search stored (a horizon score that failed high or
+			// low is a bound, not a value) must not answer the full-window search that follows it
+			tts = 1 << 14
+			items = append(items[1:], items[0], items[0])
+			o.Count("windows-then-full-window-on-one-table")
+		}
+		line := fmt.Sprintf("search 0 %s %d 0 %s ; %s", cfg, tts, start, strings.Join(append(moves, items...), " "))
 		o.do(line)
 		o.Count("cfg:" + cfg)
 		o.Nontrivial(line)
+	}
+	// curated: sparse positions with a better capture behind the one that cuts off, narrowed window then the full one, one table
+	for _, f := range []string{"k7/3ppnpn/1p6/r6Q/8/8/8/7K w - - 0 1", "7k/8/8/3q4/2P1P3/8/8/3R3K w - - 0 1", "4k3/8/8/2n1b3/3P4/8/8/3QK3 w - - 0 1"} {
+		for d := 1; d <= 2; d++ {
+			var items []string
+			for _, w := range [][2]float32{{-1.5, 0.5}, {-3, -2}, {0, 1}, {-6, -4}, {2, 5}} {
+				items = append(items, fmt.Sprintf("s:%d:H:0:%d:H:0:%d:0", d, f32key(eval.Pawns(w[0])), f32key(eval.Pawns(w[1]))), fmt.Sprintf("s:%d:%s:0", d, fullWin))
+			}
+			for _, cfg := range []string{"full-quiet", "nup-quiet"} {
+				line := fmt.Sprintf("search 0 %s 16384 0 %s ; %s", cfg, f, strings.Join(items, " "))
+				o.do(line)
+				o.Count("windows-then-full-window-on-one-table")
+				o.Nontrivial(line)
+			}
+		}
 	}
 }
 
